@@ -728,6 +728,28 @@ def perturb(scene, seed):
     return sc
 
 
+def sample_slabs(scenes, keep, seed):
+    """Probe only `keep` of the z-slabs of every scene (always including the middle one)."""
+    rng = random.Random(seed)
+    for s in scenes:
+        n = s["grid"]["n"]
+        if keep < n:
+            mid = n // 2
+            s["grid"]["zs"] = sorted([mid] + rng.sample([i for i in range(n) if i != mid], keep - 1))
+
+
+def involute_scene(sid):
+    """C19 only (not in the lattice vocabulary, never shown to Solids.tla): an involute blade, to
+    exercise writing -- and the missing reading -- of involute surfaces (finding F-JSON-1)."""
+    g = Gen(sid)
+    b = {"k": "box", "h": [6, 6, 3]}
+    blade = {"k": "involute", "r": [1.0, 2.0, 4.0], "a": [0.0, 0.44], "left": True, "hh": 1.0}
+    units = [{"name": "u0", "boundary": b, "bz": "exterior", "bg": "u0.bg", "objs": [b], "daughters": [],
+              "materials": [{"label": "u0.blade", "obj": blade}]}]
+    s = finish_scene(g, sid, sid, "involute", units, 3, [([0, 0, 0], 5)])
+    return s
+
+
 def make_scenes(seed, n_random, n_adjacent, n_perturbed, grid_n=9):
     scenes = []
     sid = 0
